@@ -298,7 +298,7 @@ def run_cases(binp, casesp, shapesp, outp, seed, wd, tag):
         if restarts > MAX_RESTARTS:
             raise vp.ToolError(f"codec_replay aborted more than {MAX_RESTARTS} times on {casesp}")
         d = os.path.join(wd, f"describe_{tag}.json")
-        vp.run([binp, "--mode", "cases", "--cases", casesp, "--shapes", shapesp, "--out", d,
+        vp.run_subject([binp, "--mode", "cases", "--cases", casesp, "--shapes", shapesp, "--out", d,
                 "--seed", str(seed), "--describe", str(last_start)], timeout=600)
         beh = json.loads(open(d).readline())["beh"]
         ctors = set()
@@ -493,7 +493,7 @@ def split_fragile(src, robust, fragile, known):
 
 
 def sweep(binp, outp, seed, n):
-    vp.run([binp, "--mode", "sweep", "--seed", str(seed), "--n", str(n), "--out", outp], timeout=1500)
+    vp.run_subject([binp, "--mode", "sweep", "--seed", str(seed), "--n", str(n), "--out", outp], timeout=1500)
     return [json.loads(l) for l in open(outp)]
 
 
